@@ -111,6 +111,9 @@ class C13(Check):
         for i in range(len(self.ders)):
             cs.append({"kind": "signer-hb", "der": i})
         cs.append({"kind": "ui-hb"})
+        for how in ("plain", "bringup", "relink"):
+            for order in (0, 1):
+                cs.append({"kind": "history", "how": how, "order": order})
         return cs
 
     def viol(self, vs, clause, detail, case, choices, observed, expected):
@@ -159,7 +162,65 @@ class C13(Check):
             self.one_signer_hb(case, stats, vs)
         elif k == "ui-hb":
             self.ui_hb(case, stats, vs)
+        elif k == "history":
+            self.history(case, stats, vs)
         return vs
+
+    def history(self, case, stats, vs):
+        """the same queries twice on one manager, the device's data changed in between (advance
+        of the chain, device replaced behind the same connection object, with or without a
+        link failure and reconnection): the second answers must show the *current* data"""
+        from ..simdev.powhsm import pseudo_pubkey
+        how = case["how"]
+        dev = self.mkdev(0)
+        dev.difficulty, dev.flags, dev.min_difficulty, dev.network = BIG[2], (1, 0, 1), BIG[1], 1
+        w = World(dev)
+        proto = harness.make_protocol(w, connected=(how != "bringup"))
+        if how == "bringup":
+            proto.initialize_device()       # the real bring-up reads version and parameters
+        cmds = [("state", {"command": "blockchainState", "version": 5}),
+                ("params", {"command": "blockchainParameters", "version": 5}),
+                ("pubkey", {"command": "getPubKey", "version": 5, "keyId": reqs.PATHS[1]}),
+                ("hb", {"command": "signerHeartbeat", "version": 5, "udValue": "11" * 16})]
+        if case["order"]:
+            cmds = cmds[::-1]
+
+        def ask(tag):
+            for name, req in cmds:
+                stats.evaluations += 1
+                reply, exc = harness.handle_request(proto, dict(req))
+                c = dict(case)
+                stats.observe(("history", how, tag, name, reply.get("errorcode") if isinstance(reply, dict) else None))
+                if name == "state":
+                    self.verify_state(dev, reply, exc, c, vs, tag)
+                elif name == "params":
+                    self.verify_params(dev, reply, exc, c, vs, tag)
+                elif name == "pubkey":
+                    want = pseudo_pubkey(dev.seed, reqs.path_binary(reqs.PATHS[1])).hex()
+                    if exc is not None or not isinstance(reply, dict) or reply.get("pubKey") != want:
+                        self.viol(vs, "pubkey" + tag, "history", c, None, {"reply": reply, "exc": exc},
+                                  {"pubKey": want})
+                else:
+                    want = {"pubKey": dev.hb_pubkey.hex(), "tweak": dev.app_hash.hex()}
+                    for kk, v in want.items():
+                        if not isinstance(reply, dict) or reply.get(kk) != v:
+                            self.viol(vs, "heartbeat-field" + tag, kk, c, None,
+                                      {kk: reply.get(kk) if isinstance(reply, dict) else None, "exc": exc}, {kk: v})
+        ask(":first")
+        # the device's data changes (every field to a different value)
+        rng = Rng("c13-second")
+        names = list(DOC_HASH_NAMES)
+        dev.hashes = {self.sel[DOC_HASH_NAMES[n]]: rng.bytes(32) for n in names}
+        dev.difficulty, dev.flags = BIG[3], (0, 1, 0)
+        dev.checkpoint, dev.min_difficulty, dev.network = rng.bytes(32), BIG[4], 3
+        dev.seed = b"c13-replaced"
+        dev.hb_pubkey, dev.app_hash = b"\x03" + rng.bytes(32), rng.bytes(32)
+        if how == "relink":
+            base = w.seq
+            w.inject = lambda world, i, apdu: ("read",) if i == base else None
+            harness.handle_request(proto, {"command": "getPubKey", "version": 5, "keyId": reqs.PATHS[0]})
+            w.inject = None
+        ask(":after-change")
 
     # ------------------------------------------------------------------
     def one_state(self, case, flags, stats, vs):
@@ -174,8 +235,12 @@ class C13(Check):
         c = dict(case, kind="one-state", flags=flags)
         stats.observe(("state", case["diff"], flags, reply.get("errorcode") if reply else None))
         stats.sample({"command": "blockchainState", "difficulty": hex(dev.difficulty), "flags": fl})
+        self.verify_state(dev, reply, exc, c, vs)
+
+    def verify_state(self, dev, reply, exc, c, vs, tag=""):
+        fl = dev.flags
         if exc is not None or not isinstance(reply, dict) or reply.get("errorcode") != 0:
-            self.viol(vs, "state-fails", "reply", c, None, {"reply": reply, "exc": exc}, {"errorcode": 0})
+            self.viol(vs, "state-fails" + tag, "reply", c, None, {"reply": reply, "exc": exc}, {"errorcode": 0})
             return
         st = reply.get("state", {})
         for doc, macro in DOC_HASH_NAMES.items():
@@ -184,15 +249,15 @@ class C13(Check):
                 node = node.get(part) if isinstance(node, dict) else None
             want = dev.hashes[self.sel[macro]].hex()
             if node != want:
-                self.viol(vs, "state-hash", doc, c, None, {doc: node}, {doc: want})
+                self.viol(vs, "state-hash" + tag, doc, c, None, {doc: node}, {doc: want})
         upd = st.get("updating", {}) if isinstance(st.get("updating"), dict) else {}
         if upd.get("total_difficulty") != dev.difficulty or isinstance(upd.get("total_difficulty"), bool):
-            self.viol(vs, "state-difficulty", "total_difficulty", c, None,
+            self.viol(vs, "state-difficulty" + tag, "total_difficulty", c, None,
                       {"total_difficulty": upd.get("total_difficulty")},
                       {"total_difficulty": dev.difficulty})
         for i, fname in enumerate(self.flag_order):
             if upd.get(fname) is not bool(fl[i]):
-                self.viol(vs, "state-flag", fname, c, None, {fname: upd.get(fname)}, {fname: bool(fl[i])})
+                self.viol(vs, "state-flag" + tag, fname, c, None, {fname: upd.get(fname)}, {fname: bool(fl[i])})
 
     def one_params(self, case, net, stats, vs):
         stats.evaluations += 1
@@ -211,15 +276,20 @@ class C13(Check):
                 self.viol(vs, "params-invalid-network", "reply", c, None, {"reply": reply, "exc": exc},
                           {"errorcode": "-905/-906"})
             return
+        self.verify_params(dev, reply, exc, c, vs)
+
+    def verify_params(self, dev, reply, exc, c, vs, tag=""):
+        net = dev.network
+        code = reply.get("errorcode") if isinstance(reply, dict) else None
         if exc is not None or code != 0:
-            self.viol(vs, "params-fails", "reply", c, None, {"reply": reply, "exc": exc}, {"errorcode": 0})
+            self.viol(vs, "params-fails" + tag, "reply", c, None, {"reply": reply, "exc": exc}, {"errorcode": 0})
             return
         p = reply.get("parameters", {})
         want = {"checkpoint": dev.checkpoint.hex(), "minimum_difficulty": dev.min_difficulty,
                 "network": NETWORK_NAMES[net]}
         for kk, v in want.items():
             if p.get(kk) != v or isinstance(p.get(kk), bool):
-                self.viol(vs, "params-field", kk, c, None, {kk: p.get(kk)}, {kk: v})
+                self.viol(vs, "params-field" + tag, kk, c, None, {kk: p.get(kk)}, {kk: v})
 
     def one_pubkey(self, path, v1, stats, vs):
         from ..simdev.powhsm import pseudo_pubkey
